@@ -53,10 +53,32 @@ def _run_one(workdir, module, cfg_text, prime, timeout, simulate=None, workers=1
     env.pop("JAVA_TOOL_OPTIONS", None)
     env.update(extra_env or {})
     with open(out_path, "w") as out:
-        try:
-            rc = subprocess.run(cmd, cwd=workdir, stdout=out, stderr=subprocess.STDOUT, timeout=timeout, env=env).returncode
-        except subprocess.TimeoutExpired:
-            raise TlcError(f"TLC timed out after {timeout}s for prime {prime} ({module})")
+        proc = subprocess.Popen(cmd, cwd=workdir, stdout=out, stderr=subprocess.STDOUT, env=env)
+        # Poll instead of a plain wait: after an evaluation error TLC can spend tens of minutes formatting a huge
+        # message; once an "Error:" line is on disk the verdict is known, so give it a short grace period and kill it.
+        pos, err_seen_at = 0, None
+        while True:
+            try:
+                rc = proc.wait(timeout=2.0)
+                break
+            except subprocess.TimeoutExpired:
+                pass
+            now = time.time()
+            try:
+                with open(out_path, "rb") as rf:
+                    rf.seek(pos)
+                    chunk = rf.read()
+                    pos += len(chunk)
+                if err_seen_at is None and (b"\nError:" in chunk or chunk.startswith(b"Error:")):
+                    err_seen_at = now
+            except OSError:
+                pass
+            if (err_seen_at is not None and now - err_seen_at > 20) or now - t0 > timeout:
+                proc.kill()
+                rc = proc.wait()
+                if err_seen_at is None:
+                    raise TlcError(f"TLC timed out after {timeout}s for prime {prime} ({module})")
+                break
     wall = time.time() - t0
     behaviours = []
     states = distinct = None
